@@ -12,8 +12,17 @@ SPEC = {
         # wire oracle (harness/o_auth.go, Lean judge Driver/DJudgeAuth.lean `judge-c18-wire`): whole servers with 2-3 users
         # (own connector / credentials / marker content each), generated command sequences over 2-5 interleaved
         # connections covering every payload type in every protocol state (not authenticated, after a failed LOGIN,
-        # authenticated, selected, after CLOSE/UNSELECT, after LOGOUT), credential pairs (right, wrong password,
-        # unknown user, other user's password, other user's name, changed case), login jail of 300 ms.
+        # authenticated, selected, after CLOSE/UNSELECT, after LOGOUT), login jail of 300 ms.
+        # Users of one server: unrelated names, a name that is a prefix of another, names differing in letter case only
+        # (same or different password), two valid pairs that are the same bytes when name and password are joined (with
+        # a separator or none).  Credential pairs: right, wrong password, unknown user, other user's password / name,
+        # changed case, and pairs derived from a valid one: every other split of name||password (preferring splits whose
+        # first part is a configured name), separator variants, truncations, empty password, swapped - presented before
+        # and after the owner of the valid pair logged in on another connection, after its logout, after the user was
+        # removed (Server.RemoveUser) and after it came back (Server.LoadUser) with the same or a new password.
+        # After every LOGIN answered OK the harness issues the identity probe LIST "" "*": the session must list the
+        # marker mailboxes of exactly the user whose connector accepts the presented pair.
+        # Directed scenarios corpus/C18/*.txt run first (prefix names, colliding joined pairs, letter case).
         # Gluon.Auth.step with the regenerated facts predicts completion class and state of every step;
         # Gluon.Auth.attempt bounds reply times from below and predicts the "too many login attempts" replies exactly;
         # views of all users through fresh sessions before/after.  stats: pair.<state>.<type> = times exercised.
@@ -21,9 +30,9 @@ SPEC = {
     ],
     "trusted_base": [
         "Lean 4.33.0 kernel; axioms limited to propext, Classical.choice, Quot.sound (audited per theorem)",
-        "facts translator harness/facts_dispatch.go (go/ast): handleCommand's type switch -> class table, second-level switches, serve-loop / command-reader / IDLE special cases, the `s.state == nil` guards, State.Selected's guard, nil-safety of the any-state handlers, shape of handleLogin / Backend.GetState / Backend.getUserID, maxLoginAttempts -> Generated/Facts/Dispatch.lean (regenerated on every run; unknown shapes are emitted as unknown and fail dispatch_conforms)",
+        "facts translator harness/facts_dispatch.go (go/ast): handleCommand's type switch -> class table, second-level switches, serve-loop / command-reader / IDLE special cases, the `s.state == nil` guards, State.Selected's guard, nil-safety of the any-state handlers, shape of handleLogin / Backend.GetState / Backend.getUserID, maxLoginAttempts; harness/facts_dispatch_login.go: every return statement of Backend.getUserID classified (authorized = `return user.userID, nil` directly under `if user.connector.Authorize(ctx, username, password)` of the range over b.users, on the never-written parameters; error; anything else - a cache, a map, a remembered id - unknown), GetState takes the state from b.users[<that id>], handleLogin presents the command's own credentials, b.users keyed by the user's own id / user.connector set once from newUser's parameter -> Generated/Facts/Dispatch.lean (regenerated on every run; unknown shapes are emitted as unknown and fail dispatch_conforms)",
         "hand-written model GluonModel/Model/Auth.lean (session protocol state machine driven by those facts; login counter and jail with abstract time); tied to the real dispatch at unit level for the not-authenticated state (dialect `dispatch`) and at wire level for all states by the oracle `c18auth` (differential testing against whole servers, not proof)",
-        "wire harness harness/o_auth.go: classification of a reply into ok/no/bad/bye/byeonly/none, marker scan of untagged data, the credential table (which connector accepts which pair: the rule of connector.Dummy.Authorize), client-side monotonic clock for send/receive times, view snapshots (LIST, LSUB, STATUS, EXAMINE + FETCH 1:* (UID FLAGS BODY.PEEK[HEADER.FIELDS (Subject)])); Lean judge GluonModel/Driver/DJudgeAuth.lean",
+        "wire harness harness/o_auth.go: classification of a reply into ok/no/bad/bye/byeonly/none, marker scan of untagged data, the credential table (which connector accepts which pair: the rule of connector.Dummy.Authorize over the users currently on the server, following ADMIN remove / add steps), the identity probe after an accepted LOGIN, client-side monotonic clock for send/receive times, view snapshots (LIST, LSUB, STATUS, EXAMINE + FETCH 1:* (UID FLAGS BODY.PEEK[HEADER.FIELDS (Subject)])); Lean judge GluonModel/Driver/DJudgeAuth.lean",
         "verif hook internal/session/verif_export_dispatch.go + verifhooks/session.go (builds a Session without backend/state and calls the real handleCommand / handleIdle)",
         "specification table GluonModel/Spec/AuthSpec.lean: which command RFC 3501 / 2971 / 2177 / 3691 / 4315 / 6851 allow in which state",
     ],
@@ -34,7 +43,8 @@ SPEC = {
         "jail measured from the client: a command is handled after the client sent it and its reply is received after it was decided; with that, theorem earliest_schedule_lower_bound makes `reply to the next attempt received >= send time of the blocked attempt + jail` (1 ms tolerance for clock granularity) a consequence of the model for all server-side timings - a lower bound only, so machine load cannot raise an alarm; the counter itself (three in a row, reset by success and by the timer) is observed exactly through the reply text `too many login attempts`, with no upper time bound",
         "where the model's prediction depends on Cmd.ok (a handler body runs: mailbox / message exists ...) the wire judge accepts OK and the failure classes NO and BAD (handlers answer BAD for `no such message`) and follows the observed outcome; in every gated position the class is exact",
         "STARTTLS on a server without TLS configuration is answered `<tag> NO` and the session carries on (exact in the wire judge: class no, state unchanged; after LOGOUT the reader goroutine may still answer a STARTTLS with that NO before Session.done has closed the connection - none or no accepted there); a stray DONE has no tag and is completed by the untagged `* NO bad command` (class no); classified, not judged under C18: an untagged BYE without completion in the selected state (the selected mailbox was deleted: serve loop's IsValid check) - not modelled in Auth.step, the judge continues with the session closed",
+        "user names and passwords in the wire oracle are printable ASCII without `\"` and `\\` (atoms or quoted strings; no literals, no non-ASCII); a user that is removed and added again gets a fresh connector.Dummy under the same user id (its mailboxes live on in gluon's database); users are removed only while none of their sessions is open",
         "not modelled: parse errors / maxSessionError (C11), TLS upgrade, response texts; AUTHENTICATE is not implemented by gluon; a failed SELECT/EXAMINE of a missing mailbox leaves the previously selected mailbox selected in gluon (State.Select looks the name up before closing the snapshot) and the model does the same",
     ],
-    "explanation": "Lean theorems over the facts-driven session model: for every command sequence without an accepted LOGIN nothing changes and every mailbox/message command is answered NO (unauth_no_effect, by induction over sequences on top of a decide over the regenerated dispatch table and guards); message commands need a selected mailbox; wrong credentials never authenticate and an authenticated session cannot switch user; users are isolated over every interleaving of sessions; after three consecutive failures the next attempt is decided no earlier than t3 + jail; success resets the counter; the client-side jail measurement is a sound lower bound (earliest_schedule_lower_bound). Tie: the model is the oracle for whole servers on the wire - every payload type in every protocol state, several users and connections, all credential kinds, measured jail, views of every user before and after.",
+    "explanation": "Lean theorems over the facts-driven session model: for every command sequence without an accepted LOGIN nothing changes and every mailbox/message command is answered NO (unauth_no_effect, by induction over sequences on top of a decide over the regenerated dispatch table and guards); message commands need a selected mailbox; wrong credentials never authenticate - an accepted LOGIN is bound to a user whose connector accepted exactly the presented pair in that call, which user_source_is_authorize ties to the source: getUserID has no other source of a user id than a successful Authorize on the presented credentials - and an authenticated session cannot switch user; users are isolated over every interleaving of sessions; after three consecutive failures the next attempt is decided no earlier than t3 + jail; success resets the counter; the client-side jail measurement is a sound lower bound (earliest_schedule_lower_bound). Tie: the model is the oracle for whole servers on the wire - every payload type in every protocol state, several users and connections (prefix / case-variant / colliding names), all credential kinds including pairs derived from valid ones before and after their owner logged in, logged out, was removed and re-added, the identity of every accepted LOGIN, measured jail, views of every user before and after.",
 }
